@@ -22,7 +22,7 @@ EXT_MODULES = ["biotite.structure.bonds"]
 GEN_FILES = ["BiotiteModel/Gen/C01.lean"]
 RULE = ("seeded operation histories (1-25 ops) over up to 4 registers holding atom arrays / stacks / atoms of 0-9 "
         "atoms, depth 0-4, with/without box, bonds and extra annotations (int/float/str/bool); indices drawn from the "
-        "whole acceptance range of one numpy axis (-n-2..n+1, slices with negative/zero/oversized step and bounds, "
+        "string annotations of varying width (1-8 chars, so array()/setitem/concatenate/stack meet narrower dtypes), whole acceptance range of one numpy axis (-n-2..n+1, slices with negative/zero/oversized step and bounds, "
         "masks of right and wrong length, contiguous and strided, sorted/unsorted/duplicate/empty index arrays, int64 "
         "and uint32, python lists, Ellipsis, 2-D stack indices); every op is compared with the Lean model and with a "
         "pure-Python list-of-atom-objects reference. non-trivial = history has >= 3 ops and touches a container "
@@ -30,17 +30,21 @@ RULE = ("seeded operation histories (1-25 ops) over up to 4 registers holding at
 TRUSTED = ["numpy basic/advanced indexing of one axis is the reference for `resolve` (np.arange(n)[ix])",
            "values the containers only move (annotation values, coordinates, boxes) are opaque tokens",
            "BondList internals beyond index relabelling/offsetting are property C02"]
-ASSUMPTIONS = ["numpy view aliasing between a container and its slices is not modelled: the generator copies a register "
+ASSUMPTIONS = ["string annotation values are rendered as words of 1-8 characters (injective token<->string map; a truncated "
+               "word decodes to no token), other values as numbers; the Lean model moves opaque tokens and therefore never "
+               "truncates: any truncation by the code is a disagreement and an oracle violation",
+               "numpy view aliasing between a container and its slices is not modelled: the generator copies a register "
                "before assigning into it in place when it may share memory with another register",
-               "dtype promotion/truncation in set_annotation and element assignment is not modelled (tokens have fixed width)"]
+               "numeric dtype promotion (int -> float) in set_annotation is not exercised"]
 LEVEL_TEXT = ("proof: index resolution equals numpy's list semantics (C01_resolve_sound); every container is well formed "
               "after every operation and history (C01_wf_*); bonds keep connecting the same atoms under any duplicate-free "
               "selection and concatenation offsets (C01_bonds_*); refinement of the column store to the list-of-atoms "
-              "reference model Spec, results and errors, for getitem (all index kinds, 1-D and 2-D), setitem (atom and "
-              "model), deletion, stack, repeat, from_template, array, annotation edits, setters, copy, and the combined "
-              "step/history theorems C01_refines / C01_refines_history. PARTIAL: the refinement is not proved for "
-              "`concatenate` and for the `==` observation (predicate Covered); these two are tied by the op-by-op "
-              "correspondence and the independent list-of-atom-objects oracle only")
+              "reference model Spec, results and errors, for EVERY operation of the protocol: getitem (all index kinds, "
+              "1-D and 2-D), setitem (atom and model), deletion, concatenate, stack, repeat, from_template, array, "
+              "annotation edits, setters, copy and the == observation (C01_refines_*), combined in C01_refines (one step, "
+              "any well-formed state) and C01_refines_history (all histories). Not proved, tied by correspondence and the "
+              "independent list-of-atom-objects oracle: that the Lean model is the code (op-by-op differential check), "
+              "string-width handling of numpy (values compared as strings of varying width), memory aliasing of copies")
 LEVEL_NOTE = "numpy indexing trusted as oracle for resolve; aliasing (views) excluded; tokens opaque"
 TECHNIQUE = "Lean 4 proof (invariant + data refinement column store -> list of atoms, op by op) + correspondence"
 
@@ -729,10 +733,11 @@ class Ref:
                 raise Reject("zero repetitions of a bonded container: rejected by the code; harmless")
             parts = [c.clone() for _ in range(k)]
             atoms = [a for x in parts for a in x.atoms]
-            # the new coordinates are given model-major after reshape (depth, k*n)
-            for m in range(c.depth):
-                for j, a in enumerate(atoms):
-                    a.co[m] = ts[m * k * n + j]
+            # coord has shape (k, depth, n): copy j of atom i has coord[j, m, i] in model m
+            for j, x in enumerate(parts):
+                for i, a in enumerate(x.atoms):
+                    for m in range(c.depth):
+                        a.co[m] = ts[(j * c.depth + m) * n + i]
             bonds = None if c.bonds is None else [b for x in parts for b in x.bonds]
             res = RC(c.stack, c.names, atoms, c.depth, c.boxes, bonds)
             r[d] = res
@@ -926,6 +931,12 @@ def oracle(case):
             return [(f"C01/{cls}/accepted-invalid", f"op {k} `{op}`: {exp}; code returns {real[3:][:160]}")]
         if real.startswith("ok "):
             if real != exp:
+                if w[0] == "set" and "?" in real and "?" not in exp:
+                    return [("C01/setitem/string-truncated", f"op {k} `{op}`: a string annotation value was cut: "
+                             f"{[x for x in re.findall(r'[?][a-z]+', real)][:4]} (values are compared as strings)")]
+                if "?" in real and "?" not in exp:
+                    return [(f"C01/{cls}/string-truncated", f"op {k} `{op}`: a string annotation value was cut: "
+                             f"{[x for x in re.findall(r'[?][a-z]+', real)][:4]}; code {real[3:][:160]}")]
                 if w[0] == "set":
                     fld = "state"
                 else:
